@@ -24,6 +24,13 @@ fn devices() -> Vec<String> {
         "/mnt/mdt0\r\n.snap".into(),
         "a\rb\tc".into(),
         "/mnt/lustre/😀/mdt0".into(),
+        "/dev/mapper/mdt0/".into(),
+        "/dev//mapper/mdt0".into(),
+        "//".into(),
+        "a/./b".into(),
+        "a/../b".into(),
+        "./x".into(),
+        "~/mdt0".into(),
         " /mnt/mdt0".into(),
         "/mnt/mdt0\n".into(),
         "\t/x ".into(),
